@@ -364,7 +364,21 @@ class C08(Spec):
                   "loudnessProps_eq", "interactionProps_eq", "avsProps_eq", "programmeProps_eq", "contentProps_eq",
                   "objectProps_eq", "packProps_eq", "channelProps_eq", "streamProps_eq", "trackProps_eq",
                   "trackUIDProps_eq", "screenProps_eq")) + (
-        "Earverif.C08.C08_roundtrip_model", "Earverif.C08.C08_nested_roundtrip")
+        "Earverif.C08.C08_roundtrip_model", "Earverif.C08.C08_nested_roundtrip") + tuple(
+        # round 5: CHNA <-> audioTrackUID transfer, id map and reference resolution
+        "Earverif.C08." + t
+        for t in ("chna_transfer_roundtrip", "chna_rows_in_document_order", "chna_conflict_rejected",
+                  "chna_only_document", "chna_absent_uid_untouched", "chna_validate_trackIndex", "chna_chunk_roundtrip",
+                  "chna_transfer_through_bytes", "chna_excluded_points_transfer", "lookup_unique",
+                  "duplicate_id_rejected", "duplicate_across_classes_not_rejected", "resolve_total_on_closed",
+                  "resolve_dangling_rejected", "resolve_then_ids_roundtrip", "parsed_reference_fields")) + tuple(
+        "Earverif.ChnaTransfer." + t
+        for t in ("up_idem", "transfer_roundtrip", "chna_only", "populate_chna_only", "load_first_row_error",
+                  "loadInto_conflicts", "chunk_roundtrip", "validateTrackIndex_ok_iff")) + tuple(
+        "Earverif.AdmRefs." + t
+        for t in ("lookup_eq_some_iff", "withoutDuplicates_cases", "dedupAll_dup", "withoutDuplicates_of_distinct",
+                  "step_cases", "run_tasks", "avsPass_spec", "resolveChain_closed", "resolveChain_dangling",
+                  "rebuild_elements"))
     trusted_base = (
         "models Earverif/Model/TimeFormat.lean, GenIds.lean, Chna.lean are hand transliterations of "
         "time_format.parse_time/unparse_time, generate_ids.generate_ids, AudioID.asByteArray and the row decoding in "
@@ -381,13 +395,25 @@ class C08(Spec):
         "transliterations of xml.py and elements/*.py, tied by the combinator / handler / class-level correspondence "
         "on every run; the extractor of the property tables (harness/c08.py parser_rows) is trusted; "
         "Proofs/C08Frozen.lean is a frozen copy of the tables compared with the regenerated ones by decide +kernel",
+        "models Earverif/Model/ChnaTransfer.lean (chna.py: populate_chna_chunk/_get_chna_entries, load_chna_chunk, "
+        "_load_track_or_channel_ref, _load_pack_ref, guess_track_indices, validate_trackIndex; ChnaChunk.numTracks/"
+        "numUIDs/asByteArray and the table loop of _read_chna_chunk; ids as 7-bit bytes, str.upper() as ASCII "
+        "upper-casing, a resolved reference = the id stored in the element found, ADM.lookup_element as a parameter "
+        "instantiated with the chain of ids of the document), Earverif/Model/AdmRefs.lean (adm.py: ADM lists, "
+        "addAudio*, elements, lookup_element/__getitem__, _without_duplicates, lazy_lookup_references, "
+        "_lazy_lookup_alternativeValueSets; lazy_lookup_references of every element class of main_elements.py / "
+        "block_formats.py incl. _link_track_stream_format and add_encodePackFormat; generic in the id type and in "
+        "str.upper; Python object identity as an explicit oid) and Earverif/Model/AdmRefsDoc.lean (the ADM that "
+        "parse_adm_elements leaves: IDRef arguments pending) are hand transliterations, tied on every run by the "
+        "round-5 correspondence (real ADM objects described at id level by harness/c08_refs.py: the attribute table "
+        "FIELDS there is trusted)",
         "NOT modelled (outside every theorem, searched only): '{:.5f}' printing of arbitrary doubles and "
         "float()/int()/Fraction() on spellings other than the ones the writer produces (values are integers on the "
-        "1e-5 grid; a gain read with gainUnit=dB is kept symbolic and not written), lxml parsing/serialisation and "
-        "namespace prefixes (the tree is abstract, no byte level), reference resolution and duplicate-id rejection in "
-        "adm.py (references are id strings), AudioStreamFormatWrapper bookkeeping, attrs validators other than the "
-        "ones stated (position / PolarPosition ranges, screen class vs centre position), chna.py "
-        "populate_chna_chunk/load_chna_chunk, _set_default_rtimes / _sort_block_formats",
+        "1e-5 grid; a gain read with gainUnit=dB is kept symbolic and not written), lxml parsing/serialisation, "
+        "namespace prefixes and bytes <-> str (the tree is abstract, no byte level; CHNA strings are 7-bit), "
+        "attrs validators other than the ones stated (position / PolarPosition ranges, screen class vs centre "
+        "position; they do not run on attribute assignment, so load_chna_chunk stores what it finds), "
+        "AudioStreamFormatWrapper bookkeeping, _set_default_rtimes / _sort_block_formats",
     )
     assumptions = (
         "times: 0 <= t < 100 h (hours are printed with a minimum of two digits, the parser accepts at most two); "
@@ -415,6 +441,22 @@ class C08(Spec):
         "Objects, audioObject gain / mute / positionOffset / alternativeValueSets, alternativeValueSetIDRef, "
         "audioTrackUID audioChannelFormatIDRef: to_xml raises) — each of these points is run on the real code and "
         "recorded in the evidence (excluded-point:*), never asserted",
+        "CHNA transfer (WFDoc / WFChunk): distinct audioTrackUID ids compared upper-cased; every track UID with a "
+        "track index and exactly one of audioTrackFormat / audioChannelFormat whose id is of the announced kind "
+        "(audioChannelFormat ids start with 'AC_', audioTrackFormat ids do not) and is found again by lookup_element; "
+        "ids are strings (generate_ids has run) and 7-bit; fewer than 65536 rows. Excluded points (theorem "
+        "chna_excluded_points_transfer + run on the real code): a track UID without index makes populate raise; "
+        "'ac_' lower-case prefix in CHNA is stored as audioTrackFormat; two rows for one known UID: last reference "
+        "wins; trackIndex 0 passes load + validate_trackIndex; a CHNA reference to an element of another class is "
+        "stored silently",
+        "reference resolution (Static / AvsOK / Closed / CommonsDistinct): every list of the ADM holds elements of "
+        "its own class; None only inside audioTrackUIDRef; decodePackFormatIDRef names audioPackFormats; stream <-> "
+        "track links consistent with one stream per audioTrackFormat; alternativeValueSet ids distinct; no two "
+        "common definitions with the same id (AssertionError in the code). Excluded points recorded from the real "
+        "code: the same id in two classes is NOT rejected (lookup answers the first in class order: theorem "
+        "duplicate_across_classes_not_rejected); a reference to an element of another class resolves silently; a "
+        "non-common element overrides a common definition with the same id (warning); ids with non-ASCII cased "
+        "characters are outside the generators (str.upper is modelled on ASCII)",
     )
     rule = (
         "leaf correspondence: generated time strings (valid shapes + near-misses), times (decimal/fractional/"
@@ -422,9 +464,19 @@ class C08(Spec):
         "(well-formed, wrong lengths, raw bytes), values and synthetic trees for every hand-written handler pair, and "
         "class level: every element of generated documents and randomly edited copies of its tree through the real "
         "parse + constructor + to_xml of its class vs the model's concrete parser — real code vs Lean driver, exact "
-        "comparison (dB gains up to rounding); search: seeded random "
+        "comparison (dB gains up to rounding); round 5: real ADM objects as xml.py leaves them (IDRef pending, subset of "
+        "private copies of the common definitions) with injected id-level faults (duplicate id same class / across "
+        "classes / shadowing or repeating a common definition, dangling, wrong-class, None, case-changed references, "
+        "alternativeValueSet faults, link conflicts, decode / encode pack references, already resolved documents) "
+        "through the real lazy_lookup_references / lookup_element vs Earverif.AdmRefs (resolved oid graphs or error "
+        "kind); real populate_chna_chunk / load_chna_chunk / validate_trackIndex / guess_track_indices / "
+        "ChnaChunk.asByteArray / _read_chna_chunk on generated documents (v1 AT_ and v2 AC_ references, CHNA-only, "
+        "stripped / preset track information, edited rows) vs Earverif.ChnaTransfer; search: seeded random "
         "documents over all element classes for BS.2076-1 and -2, one case = one document through the real "
-        "write/read pipeline; distinct by (kind, doc seed, version, size)"
+        "write/read pipeline; plus the direct predicates CHNA transfer round trip (populate -> fresh parsed copy, "
+        "references kept or stripped -> load restores index and references; CHNA-only), a main element repeated in "
+        "the AXML is always rejected with AdmIDError by parse_string, a reference to an unknown id is always rejected "
+        "with KeyError; distinct by (kind, doc seed, version, size)"
     )
 
     def extract(self, ctx):
@@ -1406,13 +1458,24 @@ REGISTRY = dict(
     "typeDefinition), streamFormat_roundtrip, trackFormat_roundtrip, trackUID_roundtrip — each tied to the regenerated "
     "table by a *Rows_eq obligation (decide +kernel) and a *Props_eq theorem; Earverif.C08.C08_roundtrip_model: every "
     "main element of a DocValid document round-trips through the parser the regenerated table declares for its "
-    "class. C08_partial is the conjunction. NOT proved, only searched: five-decimal printing / reading of arbitrary "
-    "doubles, lxml (no byte level in the model), reference resolution and duplicate-id rejection in adm.py, "
-    "populate_chna_chunk/load_chna_chunk — covered by generated documents over every element class and optional "
-    "attribute for both versions run through the real write/read pipeline (equivalence, byte fixed point, CHNA "
-    "transfer, ID checks).",
+    "class; (4) the CHNA <-> audioTrackUID transfer of chna.py (Earverif.C08.chna_transfer_roundtrip: for a WFDoc "
+    "document populate_chna_chunk then load_chna_chunk into any copy without track information restores every track "
+    "UID, and populate(load(chunk)) = chunk for a well-formed chunk; chna_only_document; chna_rows_in_document_order; "
+    "chna_conflict_rejected with the error kinds of the code; chna_chunk_roundtrip / chna_transfer_through_bytes "
+    "composing with the 40-byte row; chna_excluded_points_transfer); (5) the id map and reference resolution of "
+    "adm.py and the element classes (lookup_unique; duplicate_id_rejected: a repeated id within a class is always "
+    "AdmIDError; resolve_total_on_closed: on a closed document nothing is raised and every plain reference attribute "
+    "holds the element lookup_element finds for the id written; resolve_dangling_rejected: KeyError; "
+    "resolve_then_ids_roundtrip: write -> parse gives back the same ids in every IDRef argument, composed with "
+    "C08_roundtrip_model, hence reference structure is preserved by write -> parse -> resolve; "
+    "duplicate_across_classes_not_rejected records that the same id in two classes is accepted). C08_partial is the "
+    "conjunction. NOT proved, only searched: five-decimal printing / reading of arbitrary doubles, lxml and the byte "
+    "level of AXML (the tree is abstract), attrs validators — covered by generated documents over every element "
+    "class and optional attribute for both versions run through the real write/read pipeline (equivalence, byte "
+    "fixed point, CHNA transfer, ID checks, duplicate / dangling rejection).",
     note="Trusted: Lean kernel; hand transliterations of time_format / generate_ids / CHNA row codec / xml.py "
-    "(combinators, all handler pairs, element classes) + correspondence harness (real ElementParser.parse/to_xml, real "
+    "(combinators, all handler pairs, element classes) / chna.py / adm.py id map and lazy_lookup_references of every "
+    "element class + correspondence harness (real ElementParser.parse/to_xml, real "
     "handler functions and whole-element parse+to_xml vs the Lean driver on synthetic trees, on trees written for "
     "generated documents and on randomly edited copies); the table extractor; Python "
     "Fraction/Decimal/str.format/struct semantics. Quantifier limits: t < 100 h, ASCII digits, <= 0xEFFF elements per "
